@@ -176,6 +176,9 @@ def directed():
         P.append(S + ["Fork 0 0 0", "Kill 0", "Step", "Step"])
         # unref of the other connection from a closed callback
         P.append(S + ["Body created 2 0 Ref 1", "Body closed 2 0 Unref 1"] + con2 + ["CDisc 0", "Step", "CDisc 1", "Step"])
+        # the statistics are read in connection_destroyed (as corosync does), after a normal close and after a retried one
+        P.append(S + ["Body destroyed 1 0 Stats self", "Body destroyed 2 0 Stats self", "ClosedRet 2 1"] + con2 +
+                 ["CSend 0 1", "Step", "CDisc 0", "CDisc 1", "Step", "Jobs"])
         # rate limit changes with live connections
         P.append(S + con2 + ["RateLimit 3", "CSend 0 2", "Step", "RateLimit 0", "Step", "RateLimit 1", "CSend 1 2", "Step", "Step"])
     return P
